@@ -80,6 +80,16 @@ theorem replace_no_match_identity (p rep cs : List Char) (hp : p ≠ [])
 
 /-! ### NMT -/
 
+/-- The tables regenerated from the current source are the listed ones. -/
+theorem nmt_tables_listed :
+    Generated.NMT_REMOVED = Spec.NMT_REMOVED_LISTED ∧ Generated.NMT_BLANKED = Spec.NMT_BLANKED_LISTED := by decide
+
+/-- Hence the specification over the regenerated tables is the specification over the listed sets. -/
+theorem nmtSpec_listed (cs : List Char) : Spec.nmtSpec cs = Spec.nmtSpecListed cs := by
+  unfold Spec.nmtSpec Spec.nmtSpecListed
+  rw [nmt_tables_listed.1, nmt_tables_listed.2]
+
+
 theorem nmt_chars (cs : List Char) : normalizeNmt (encodeChars cs) = encodeChars (nmtSpec cs) :=
   Kitoken.Proofs.Normalize.nmt_chars cs
 
